@@ -131,6 +131,13 @@ type TypeAssertionError struct {
 
 func (*TypeAssertionError) RuntimeError() {}
 
+// PanicTypeAssert raises the run-time error of a failed type assertion x.(T):
+// inter is the static interface type of x, concrete its dynamic type (nil for
+// a nil interface) and asserted the type T.
+func PanicTypeAssert(inter, concrete, asserted *_type) {
+	panic(&TypeAssertionError{inter, concrete, asserted, ""})
+}
+
 func (e *TypeAssertionError) Error() string {
 	inter := "interface"
 	if e._interface != nil {
